@@ -100,6 +100,16 @@ impl<T, D: Data<Elem = f64>> Fit<ArrayBase<D, Ix2>, T, ReductionError> for PcaPa
             self.embedding_size
         };
 
+        // LOBPCG stops on an absolute residual (1e-10). For data of large magnitude that threshold
+        // lies below the rounding noise: the iteration continues with degenerate search directions
+        // and ends with NaN values (a panic). Decompose the data scaled to unit Frobenius norm, so
+        // that the tolerance is relative to the total scatter, and scale the singular values back.
+        let data_scale = match x.iter().map(|v| v * v).sum::<f64>().sqrt() {
+            norm if norm > 0. => norm,
+            _ => 1.,
+        };
+        let x = x / data_scale;
+
         // estimate Singular Value Decomposition
         #[cfg(feature = "blas")]
         let result = TruncatedSvd::new(x, TruncatedOrder::Largest).decompose(num_triplets)?;
@@ -108,6 +118,7 @@ impl<T, D: Data<Elem = f64>> Fit<ArrayBase<D, Ix2>, T, ReductionError> for PcaPa
             .decompose(num_triplets)?;
         // explained variance is the spectral distribution of the eigenvalues
         let (_, sigma, v_t) = result.values_vectors();
+        let sigma = sigma * data_scale;
 
         // keep the leading `embedding_size` triplets (they are sorted by decreasing singular value)
         let num_kept = usize::min(self.embedding_size, sigma.len());
